@@ -104,8 +104,8 @@ func init() {
 		NotDecided: "Nothing value-level: with the tree unchanged, the yielded elements are those of C02–C05."})
 	registerProp(&propSpec{ID: "C07", Level: "other", DesignRef: "§4 C07", QuickArchs: []string{"amd64", "386"},
 		Rules:      []string{"R15", "R32", "R05"},
-		Explain:    "Encoder/decoder sibling agreement of the three numeric codecs, per key type and target architecture (constant-folded bits.UintSize branches): R15 the type switches of Transform and Restore have an arm for every term of the constraint's type set; the encoding length equals unsafe.Sizeof of the key type; every encoding/binary call is on BigEndian with the width of the type; the sign-flip constant is exactly 1<<(8W-1) in both directions; float: shift 8W-1, sign constant, the offset is equal in both directions and ≥ 2, and the special codes {NaN→0, -Inf→1, +Inf→2^n-2} form the same table in both directions; R32 every reinterpreting cast is between pointer-free types of fitting size; R05 fixed width (prefix-free, concatenable).",
-		NotDecided: "The sign-magnitude→biased mask arithmetic itself and hence monotonicity/injectivity for every bit pattern: that needs enumeration or a solver, which static analysis excludes."})
+		Explain:    "R15, per key type and target architecture (constant-folded bits.UintSize branches): (A) abstract interpretation of Transform and Restore (checker/codecinterp.go). The values of a W-bit key type are split into classes on which the sign/top bit is fixed and the remaining bits m range over an interval (floats: NaN with sign clear/set, -Inf, negative numbers, -0, +0, positive numbers, +Inf; integers: top bit clear/set). On one class every word the codec computes is an affine function a*m+b with a in {-1,0,1}; the statements are executed on that domain with exact integer arithmetic and interval checks (no enumeration of values, no solver), branching on the conditions decidable per class. From the forms per class the checker decides in closed form: the encoding has the width of the type and is stored big-endian; the codes are strictly monotone in the order the property states (NaN < -Inf < negatives < -0 < +0 < positives < +Inf, all NaNs alike; integers by value), hence injective; Restore applied to Transform's word returns the input bits (NaN for NaN). (B) pattern clauses as before (arm for every term of the type set, slice length, BigEndian accessors of the type's width, sign constant, offset and special-code table equal in both directions); where (A) has decided an arm, the clauses that look for one way of writing the sign handling are informative only. R32 every reinterpreting cast is between pointer-free types of fitting size; R05 fixed width (prefix-free, concatenable).",
+		NotDecided: "What the abstract domain cannot express makes an arm UNKNOWN and leaves it to the pattern clauses: shifts other than by W-1, XOR/OR/AND with a constant whose low W-1 bits are neither all clear nor all set, arithmetic that may wrap on a class, calls outside math / encoding/binary / the library. Go's own conversion and math.Float*bits semantics and the IEEE-754 layout are trusted."})
 	registerProp(&propSpec{ID: "C10", Level: "other", DesignRef: "§4 C10", QuickArchs: []string{"amd64", "arm64", "386"},
 		Rules:      []string{"R19", "R09", "R10", "R22", "R20", "R37", "R41", "R43", "R44"},
 		Explain:    "R19 every use of a 4-lane SWAR search result as an index is under result < fill count (the search sees all four lanes, occupied or not), and deleteChild – the one unguarded user – is only called for a byte proven registered by findChild on the same reference; R09 the byte→child lookup of each size class and every inlined copy of it agree; R10 constant-range indexes fit [4]/[16]/[48]/[256]; R22 capacity guards equal the array lengths and shrink thresholds fit the smaller class; R20 each architecture sibling of the 16-lane routines (amd64 asm, arm64 asm, portable Go) makes its result depend on keys, fill count and probe byte, compares unsigned, and stores nothing but the result. R37 a class whose deleteChild leaves holes never takes slot childrenLen; R41 every deleteChild path vacates the slot; R43 every addChild path stores one child and bumps the fan-out once. R47 a single-lane store into the packed node4 key word replaces the lane (the lane is cleared on every path before the byte is OR-ed in): the removal shift leaves the former top lane as it was, so lanes beyond the fill count are not zero.",
@@ -147,6 +147,15 @@ func init() {
 	for _, r := range nodeLayer {
 		impliedProps[r] = append(impliedProps[r], "C01", "C02", "C06", "C08", "C09", "C10", "C11")
 	}
+	// a lookup that finds a child that is not registered (a stale lane, a ghost slot) lets a Delete
+	// of an absent key succeed: the no-op half of C15
+	for _, r := range []string{"R09", "R19", "R41", "R47"} {
+		impliedProps[r] = append(impliedProps[r], "C15")
+	}
+	// a node that is in the pool while a tree still references it (released twice, released
+	// before the relink, the wrong node released) is filled in by its next taker: stored keys and
+	// values do not stay as inserted (C18)
+	impliedProps["R24"] = append(impliedProps["R24"], "C18")
 	for _, r := range []string{"R09", "R10", "R35", "R39", "R12"} {
 		impliedProps[r] = append(impliedProps[r], "C02", "C03", "C04", "C05", "C08", "C09")
 	}
@@ -159,6 +168,9 @@ func init() {
 	impliedProps["R46"] = append(impliedProps["R46"], "C01", "C03", "C04", "C08", "C09", "C11")
 	impliedProps["R17"] = append(impliedProps["R17"], "C14", "C08")
 	impliedProps["R26"] = append(impliedProps["R26"], "C14", "C17")
+	// an encoding that is not an order isomorphism with exact round trip merges or misorders the
+	// keys of every tree built on it
+	impliedProps["R15"] = append(impliedProps["R15"], "C01", "C02")
 	impliedProps["R48"] = append(impliedProps["R48"], "C17")
 	impliedProps["R49"] = append(impliedProps["R49"], "C12", "C14", "C16")
 	impliedProps["R29"] = append(impliedProps["R29"], "C08")
